@@ -20,7 +20,7 @@ def gen(rng, tier):
                 s = ''.join(rng.choice('0123456789') for _ in range(n)) if mode == 'digits' else iu.rand_text(rng, 'latin_1', n)
                 cases.append({'kind': 'mask', 's': s, 'mc': mc})
     pk = iu.packaged()
-    for i in range(900 if tier == 'quick' else 10000):
+    for i in range(900 if tier == 'quick' else 30000):
         cfg = iu.gen_config(rng)
         var = [k for k, c in cfg.items() if c['field_type'] != 'FIXED' and not c.get('field_processor') and c.get('field_python_type') in (None, 'string')]
         if not var:
